@@ -1165,14 +1165,19 @@ func (te *TemplateEngine) cloneRun(source *Run) Run {
 		newRun.Drawing = source.Drawing
 	}
 
+	// 复制分页符/换行符（如果有）
+	if source.Break != nil {
+		newRun.Break = &Break{Type: source.Break.Type}
+	}
+
 	// 复制域字符（如果有）
 	if source.FieldChar != nil {
-		newRun.FieldChar = source.FieldChar
+		newRun.FieldChar = &FieldChar{FieldCharType: source.FieldChar.FieldCharType}
 	}
 
 	// 复制指令文本（如果有）
 	if source.InstrText != nil {
-		newRun.InstrText = source.InstrText
+		newRun.InstrText = &InstrText{Space: source.InstrText.Space, Content: source.InstrText.Content}
 	}
 
 	return newRun
